@@ -16,6 +16,7 @@ RULE = ("byte strings built from candidates {identity, generator, random subgrou
         "infinity/sort flags -> coordinate range -> curve -> subgroup and the monitor compares success/failure, the decoded "
         "point and the error category (the coordinate name inside the coordinate error is not compared). A case is (op, "
         "flag bits, model outcome, candidate order class, build)")
+RULE += (" " + 'Candidates include subgroup points (found by search, frozen as multiples of the generator, recomputed in the model) with a coordinate whose leading 16 bits equal those of the modulus or are zero.')
 ASSUMPTIONS = ["model decoder written from the format description; subgroup membership by model multiplication with r",
                "error categories are compared, not messages"]
 EXHAUSTIVE = ["8 flag combinations x 4 encodings x candidate classes", "out-of-range substitution of every coordinate component"]
